@@ -10,6 +10,9 @@
 //                           are well-formed)
 //   w16 <u> <u> ...         UTF-16 code units (reduced to 1..FFFF, one per 32-bit wchar_t): utf16toUtf8 / String(const wchar_t*) /
 //                           String(Array<wchar_t>) terminate in bounds; the standard UTF-8 when the units are well-formed UTF-16
+//   pf <n> <cp> <cp> ...    counted conversions with a BINDING count: the first n (reduced to 1..len) of the given scalars through
+//                           utf32toUtf8 / utf8toUtf32 / utf8toUtf16 / utf16toUtf8 (count = code points to convert, in all four),
+//                           from a longer 0-terminated source and from an exactly-sized UNTERMINATED source; single elements
 // Memory oracle: ASan. C-string / wide / code-point inputs and all outputs live in exact-size malloc blocks; String
 // receivers are allocated with new (inline storage = last 16 bytes of the 24-byte object) and are tested as they are,
 // prefixed with ASCII to 15 bytes (terminator = last byte of the object) and to 19 bytes (heap buffer of exactly 20).
@@ -258,6 +261,10 @@ static void check_string_methods(const Info& in, int pad)
 			VF_CHECK(S(back) == t, "String(dataw() of ", vf::show(t), ") = ", vf::show(S(back)));
 		// a second expansion in the already enlarged buffer
 		VF_CHECK(w.wlength() == wl, "second wlength() on the same String differs");
+		if (in.valid) { // and back in place (what SafeString(s) without a size does)
+			w.fixW();
+			VF_CHECK(S(w) == t, "dataw() then fixW() of ", vf::show(t), " = ", vf::show(S(w)));
+		}
 	}
 }
 
@@ -362,6 +369,91 @@ static void op_nb(const vf::Op& o)
 	}
 }
 
+// The count parameter of the four free functions is decremented once per converted code point (loop iteration) and the loop
+// stops when it reaches zero, before the next source element is read; so for n >= 1 and a source whose first n code points are
+// non-zero scalars the function converts exactly these, reads nothing behind them, writes their standard encoding plus a
+// terminator and returns the number of output units.  `exact`: the source block holds the n code points only (no terminator,
+// the allocation ends there); otherwise it holds everything from `from` to the end of `all` plus a terminator.
+static void check_counted(const std::vector<uint32_t>& all, size_t from, size_t n, bool exact)
+{
+	std::vector<uint32_t> want(all.begin() + from, all.begin() + from + n);
+	std::vector<uint32_t> avail = exact ? want : std::vector<uint32_t>(all.begin() + from, all.end());
+	std::string w8 = ref::utf8(want), a8 = ref::utf8(avail);
+	std::vector<uint16_t> w16 = ref::utf16(want), a16 = ref::utf16(avail);
+	size_t term = exact ? 0 : 1;
+	auto ctx = [&]() {
+		return vf::str(showcps(all), " from ", from, " n=", n, exact ? " (exactly-sized unterminated source)" : " (longer 0-terminated source)");
+	};
+	{
+		Exact<int> src(avail.size() + term);
+		for (size_t i = 0; i < avail.size(); i++)
+			src.p[i] = (int)avail[i];
+		if (term)
+			src.p[avail.size()] = 0;
+		Exact<char> out(4 * n + 1);
+		int r = utf32toUtf8(src.p, out.p, (int)n);
+		VF_CHECK(r == (int)w8.size(), "utf32toUtf8 returned ", r, ", the first n code points take ", w8.size(), " bytes: ", ctx());
+		VF_CHECK(out.p[r] == 0 && memcmp(out.p, w8.data(), w8.size()) == 0, "utf32toUtf8 wrote ", vf::show(std::string(out.p, r)), ", want ", vf::show(w8), ": ", ctx());
+	}
+	{
+		Exact<char> src(a8.size() + term);
+		memcpy(src.p, a8.data(), a8.size());
+		if (term)
+			src.p[a8.size()] = 0;
+		{
+			Exact<int> out(n + 1);
+			int r = utf8toUtf32(src.p, out.p, (int)n);
+			VF_CHECK(r == (int)n && out.p[n] == 0, "utf8toUtf32 returned ", r, " / no terminator at n: ", ctx());
+			for (size_t i = 0; i < n; i++)
+				VF_CHECK((uint32_t)out.p[i] == want[i], "utf8toUtf32 [", i, "] = ", out.p[i], ", want ", want[i], ": ", ctx());
+		}
+		{
+			Exact<wchar_t> out(2 * n + 1);
+			int r = utf8toUtf16(src.p, out.p, (int)n);
+			VF_CHECK(r == (int)w16.size() && out.p[r] == 0, "utf8toUtf16 returned ", r, ", the first n code points take ", w16.size(), " units / no terminator: ", ctx());
+			for (size_t i = 0; i < w16.size(); i++)
+				VF_CHECK((uint32_t)out.p[i] == w16[i], "utf8toUtf16 [", i, "] = ", (long)out.p[i], ", want ", w16[i], ": ", ctx());
+		}
+	}
+	{
+		Exact<wchar_t> src(a16.size() + term);
+		for (size_t i = 0; i < a16.size(); i++)
+			src.p[i] = (wchar_t)a16[i];
+		if (term)
+			src.p[a16.size()] = 0;
+		Exact<char> out(4 * n + 1);
+		int r = utf16toUtf8(src.p, out.p, (int)n);
+		VF_CHECK(r == (int)w8.size(), "utf16toUtf8 returned ", r, ", the first n code points take ", w8.size(), " bytes: ", ctx());
+		VF_CHECK(out.p[r] == 0 && memcmp(out.p, w8.data(), w8.size()) == 0, "utf16toUtf8 wrote ", vf::show(std::string(out.p, r)), ", want ", vf::show(w8), ": ", ctx());
+	}
+}
+
+static size_t pf_count(const vf::Op& o, size_t len)
+{
+	long long v = o.i(0, 1);
+	if (v >= 1 && (size_t)v <= len)
+		return (size_t)v;
+	return 1 + (size_t)((v < 0 ? -(v + 1) : v) % (long long)len);
+}
+
+static void op_pf(const vf::Op& o)
+{
+	std::vector<uint32_t> all = cps_of(o.a, 1, o.a.size());
+	size_t len = all.size();
+	if (len == 0)
+		return;
+	size_t n = pf_count(o, len);
+	check_counted(all, 0, n, false);
+	check_counted(all, 0, n, true);
+	// one element at a time (as a caller converting piecewise does): followed by more elements, and alone in its block
+	for (size_t i = 0; i < len; i++) {
+		if (len > 16 && !(i == 0 || i + 2 == n || i + 1 == n || i == n || i + 1 == len))
+			continue;
+		check_counted(all, i, 1, false);
+		check_counted(all, i, 1, true);
+	}
+}
+
 static void op_w16(const vf::Op& o)
 {
 	std::vector<uint16_t> u;
@@ -419,6 +511,8 @@ void vf_run_case(const std::string& part, const vf::Case& c)
 			op_nb(o);
 		else if (o.name == "w16")
 			op_w16(o);
+		else if (o.name == "pf")
+			op_pf(o);
 	}
 }
 
@@ -753,6 +847,93 @@ void vf_search(const vf::Args& a)
 				vf::stats().nt(vf::fnv(vf::serialize(e.c)));
 		}
 		vf::stats().part("wide.random", e.ran - before, false);
+	}();
+
+	// (3d) counted conversions with a binding count: every sequence of length <= 5 over two ASCII and one 2-, 3-, 4-byte scalar
+	// with every count 1..len; generated longer sequences (half ASCII) with every/any count
+	[&]() {
+		static const long long PA[] = {0x41, 0x7A, 0xE9, 0x20AC, 0x1F600};
+		const uint64_t A = sizeof PA / sizeof PA[0];
+		Enum e("prefix", "pf");
+		uint64_t idx = 0;
+		for (int len = 1; len <= 5; len++) {
+			uint64_t total = 1;
+			for (int i = 0; i < len; i++)
+				total *= A;
+			for (uint64_t k = 0; k < total; k++)
+				for (int n = 1; n <= len; n++)
+					if (idx++ % W == me) {
+						auto& v = e.c.ops[0].a;
+						v.assign(1, n);
+						uint64_t x = k;
+						bool ascii_last = false, ascii_next = false, all_ascii = true;
+						for (int i = 0; i < len; i++) {
+							long long cp = PA[x % A];
+							x /= A;
+							v.push_back(cp);
+							if (i == n - 1)
+								ascii_last = cp < 0x80;
+							if (i == n)
+								ascii_next = cp < 0x80;
+							if (cp >= 0x80)
+								all_ascii = false;
+						}
+						if (!vf::runner().run(e.part, e.c))
+							return;
+						e.ran++;
+						e.classes[n < len ? "count<len" : "count=len"]++;
+						if (ascii_last && ascii_next)
+							e.classes["ascii_run_across_count"]++;
+						else if (ascii_last)
+							e.classes["ascii_at_n-1_only"]++;
+						else if (ascii_next)
+							e.classes["ascii_at_n_only"]++;
+						if (all_ascii)
+							e.classes["ascii_only"]++;
+						if (len == 4 && n == 2 && k == 187)
+							vf::stats().sample("prefix: " + vf::serialize(e.c));
+					}
+		}
+		vf::stats().nt_counted(e.ran);
+		vf::stats().part("prefix.all_sequences_len<=5_over_5_scalars_x_every_count", e.ran, true);
+		// generated: (count selector, scalars) with half of the scalars ASCII
+		auto sc = gen::oneOf(gen::map(vf::irange<int>(1, 0x7F), [](int v) { return (long long)v; }), gen_scalar());
+		int maxlen = a.quick() ? 60 : 300;
+		auto g = gen::map(gen::tuple(vf::irange<int>(0, 1000000), vf::irange<int>(0, 5), gen::pair(vf::boundary_len({1, 2, 3, 8, 16, 17}, maxlen), gen::container<std::vector<long long>>(sc))),
+		                  [](const std::tuple<int, int, std::pair<int, std::vector<long long>>>& t) {
+			                  vf::Op o("pf");
+			                  const auto& pool = std::get<2>(t).second;
+			                  size_t len = (size_t)std::get<2>(t).first, m = pool.size();
+			                  if (len == 0)
+				                  len = 1;
+			                  // count: anywhere, or (often) at the end / one before the end
+			                  long long n = std::get<1>(t) == 0 ? (long long)len : std::get<1>(t) == 1 && len > 1 ? (long long)len - 1 : 1 + std::get<0>(t) % (long long)len;
+			                  o.a.push_back(n);
+			                  for (size_t i = 0; i < len; i++)
+				                  o.a.push_back(m ? pool[(i + (i / m) * 3) % m] : 'x');
+			                  vf::Case c;
+			                  c.ops.push_back(o);
+			                  return c;
+		                  });
+		vf::check_cases("prefix", a.n(4000, 12000), 100, g, [](const vf::Case& c) {
+			const auto& o = c.ops[0];
+			std::vector<uint32_t> all = cps_of(o.a, 1, o.a.size());
+			size_t len = all.size(), n = pf_count(o, len);
+			bool al = all[n - 1] < 0x80, an = n < len && all[n] < 0x80;
+			vf::stats().cls(n < len ? "prefix.rc.count<len" : "prefix.rc.count=len");
+			if (al && an)
+				vf::stats().cls("prefix.rc.ascii_run_across_count");
+			else if (al)
+				vf::stats().cls("prefix.rc.ascii_at_n-1_only");
+			else if (an)
+				vf::stats().cls("prefix.rc.ascii_at_n_only");
+			int widths = 0;
+			for (auto x : all)
+				widths |= 1 << ref::utf8_len(x);
+			vf::stats().cls(widths == 2 ? "prefix.rc.ascii_only" : (widths & (widths - 1)) ? "prefix.rc.mixed_widths" : "prefix.rc.one_width_nonascii");
+			if (len >= 2)
+				vf::stats().nt(vf::fnv(vf::serialize(c)));
+		});
 	}();
 
 	// (4) equalsNocase == equality of lower-cased forms: all pairs of code points below 1443 (the table size)
